@@ -29,6 +29,13 @@ from ..tpm.tpm import Tpm
 from .keychain import Keychain, AbstractCertificate, AbstractKey, AbstractIdentity
 
 
+# An Identity or Key object lives longer than its row may: SQLite hands the id of a deleted row out again, so a view
+# looks for its owner by row id AND name - an object whose owner was deleted stays empty instead of showing
+# what was created in its place.
+_IDENTITY_SCOPE = 'identity_id=(SELECT id FROM identities WHERE id=? AND identity=?)'
+_KEY_SCOPE = 'key_id=(SELECT id FROM keys WHERE id=? AND key_name=?)'
+
+
 def _rollback_on_error(method):
     """
     A failed statement or commit leaves the transaction open. Without a rollback the part of the operation
@@ -269,8 +276,11 @@ class Key(AbstractKey):
         self._key_bits = key_bits
         self.is_default = is_default
 
+    def _scope(self):
+        return self.row_id, bytes(Name.to_bytes(self._name))
+
     def __len__(self) -> int:
-        cursor = self.pib.conn.execute('SELECT count(*) FROM certificates WHERE key_id=?', (self.row_id,))
+        cursor = self.pib.conn.execute('SELECT count(*) FROM certificates WHERE ' + _KEY_SCOPE, self._scope())
         ret = cursor.fetchone()[0]
         cursor.close()
         return ret
@@ -278,8 +288,8 @@ class Key(AbstractKey):
     def __getitem__(self, name: NonStrictName) -> Certificate:
         name = Name.to_bytes(name)
         sql = ('SELECT id, certificate_name, certificate_data, is_default '
-               'FROM certificates WHERE certificate_name=? AND key_id=?')
-        cursor = self.pib.conn.execute(sql, (name, self.row_id))
+               'FROM certificates WHERE certificate_name=? AND ' + _KEY_SCOPE)
+        cursor = self.pib.conn.execute(sql, (name, *self._scope()))
         data = cursor.fetchone()
         if not data:
             raise KeyError(name)
@@ -289,7 +299,7 @@ class Key(AbstractKey):
                            is_default=is_default != 0)
 
     def __iter__(self) -> Iterator[FormalName]:
-        cursor = self.pib.conn.execute('SELECT certificate_name FROM certificates WHERE key_id=?', (self.row_id,))
+        cursor = self.pib.conn.execute('SELECT certificate_name FROM certificates WHERE ' + _KEY_SCOPE, self._scope())
         while True:
             name = cursor.fetchone()
             if not name:
@@ -312,7 +322,8 @@ class Key(AbstractKey):
 
         :return: ``True`` if there is one.
         """
-        cursor = self.pib.conn.execute('SELECT id FROM certificates WHERE is_default=1 AND key_id=?', (self.row_id,))
+        sql = 'SELECT id FROM certificates WHERE is_default=1 AND ' + _KEY_SCOPE
+        cursor = self.pib.conn.execute(sql, self._scope())
         ret = cursor.fetchone() is not None
         cursor.close()
         return ret
@@ -336,8 +347,8 @@ class Key(AbstractKey):
         :return: the default Certificate.
         """
         sql = ('SELECT id, certificate_name, certificate_data, is_default '
-               'FROM certificates WHERE is_default=1 AND key_id=?')
-        cursor = self.pib.conn.execute(sql, (self.row_id,))
+               'FROM certificates WHERE is_default=1 AND ' + _KEY_SCOPE)
+        cursor = self.pib.conn.execute(sql, self._scope())
         data = cursor.fetchone()
         if not data:
             raise KeyError('No default certificate')
@@ -372,8 +383,11 @@ class Identity(AbstractIdentity):
         self._name = name
         self.is_default = is_default
 
+    def _scope(self):
+        return self.row_id, bytes(Name.to_bytes(self._name))
+
     def __len__(self) -> int:
-        cursor = self.pib.conn.execute('SELECT count(*) FROM keys WHERE identity_id=?', (self.row_id,))
+        cursor = self.pib.conn.execute('SELECT count(*) FROM keys WHERE ' + _IDENTITY_SCOPE, self._scope())
         ret = cursor.fetchone()[0]
         cursor.close()
         return ret
@@ -381,7 +395,7 @@ class Identity(AbstractIdentity):
     def __getitem__(self, name: NonStrictName) -> Key:
         name = Name.to_bytes(name)
         cursor = self.pib.conn.execute('SELECT id, key_name, key_bits, is_default FROM keys '
-                                       'WHERE key_name=? AND identity_id=?', (name, self.row_id))
+                                       'WHERE key_name=? AND ' + _IDENTITY_SCOPE, (name, *self._scope()))
         data = cursor.fetchone()
         if not data:
             raise KeyError(name)
@@ -390,7 +404,7 @@ class Identity(AbstractIdentity):
         return Key(self.pib, self._name, row_id, Name.from_bytes(key_name), key_bits, is_default != 0)
 
     def __iter__(self) -> Iterator[FormalName]:
-        cursor = self.pib.conn.execute('SELECT key_name FROM keys WHERE identity_id=?', (self.row_id,))
+        cursor = self.pib.conn.execute('SELECT key_name FROM keys WHERE ' + _IDENTITY_SCOPE, self._scope())
         while True:
             name = cursor.fetchone()
             if not name:
@@ -422,7 +436,7 @@ class Identity(AbstractIdentity):
 
         :return: ``True`` if there is one.
         """
-        cursor = self.pib.conn.execute('SELECT id FROM keys WHERE is_default=1 AND identity_id=?', (self.row_id,))
+        cursor = self.pib.conn.execute('SELECT id FROM keys WHERE is_default=1 AND ' + _IDENTITY_SCOPE, self._scope())
         ret = cursor.fetchone() is not None
         cursor.close()
         return ret
@@ -445,8 +459,8 @@ class Identity(AbstractIdentity):
 
         :return: the default Key.
         """
-        sql = 'SELECT id, key_name, key_bits, is_default FROM keys WHERE is_default=1 AND identity_id=?'
-        cursor = self.pib.conn.execute(sql, (self.row_id,))
+        sql = 'SELECT id, key_name, key_bits, is_default FROM keys WHERE is_default=1 AND ' + _IDENTITY_SCOPE
+        cursor = self.pib.conn.execute(sql, self._scope())
         data = cursor.fetchone()
         if not data:
             raise KeyError('No default key')
